@@ -1,9 +1,26 @@
 #!/bin/sh
 # findings/run_demo.sh <worktree-of-calamine> [demo-file] [test filter] [cargo feature flags]
-# Copies a demo file into <worktree>/tests, runs it offline, removes it again.  Triage aid only.
-set -e
+# Copies a demo file (and its data files) into <worktree>/tests, builds it offline and runs every test in its
+# own process under a 4 GB address-space limit (a demonstration may abort on allocation failure).  Triage aid only.
 WT="$1"; DEMO="${2:-$(dirname "$0")/demos/kf_demos.rs}"; FILTER="$3"; FEAT="$4"
 NAME="zz_$(basename "$DEMO" .rs)"
 cp "$DEMO" "$WT/tests/$NAME.rs"
-trap 'rm -f "$WT/tests/$NAME.rs"' EXIT
-cd "$WT" && CARGO_NET_OFFLINE=true cargo test --offline $FEAT --test "$NAME" -- $FILTER 2>&1 | grep -E "^test |test result|error|panicked|warning: unused" | head -80
+cp "$(dirname "$DEMO")"/*.tsv "$(dirname "$DEMO")"/*.bin "$WT/tests/" 2>/dev/null || true
+trap 'rm -f "$WT/tests/$NAME.rs" "$WT"/tests/c06_mutations.tsv "$WT"/tests/vba_dir.bin' EXIT
+cd "$WT" || exit 2
+BIN=$(CARGO_NET_OFFLINE=true cargo test --offline $FEAT --test "$NAME" --no-run --message-format=json 2>/dev/null | python3 -c "
+import sys,json
+for l in sys.stdin:
+    try: d=json.loads(l)
+    except Exception: continue
+    if d.get('reason')=='compiler-artifact' and d.get('executable') and d['target']['name']=='$NAME': print(d['executable'])
+" | tail -1)
+if [ -z "$BIN" ]; then CARGO_NET_OFFLINE=true cargo test --offline $FEAT --test "$NAME" --no-run 2>&1 | grep -E "^error" -A6 | head -40; echo "BUILD FAILED"; exit 2; fi
+pass=0; fail=0
+for t in $("$BIN" --list 2>/dev/null | grep ": test" | sed 's/: test//' | grep "$FILTER"); do
+  out=$( (ulimit -v 4000000; timeout 300 "$BIN" --exact "$t" --test-threads 1 2>&1) ); rc=$?
+  if [ $rc -eq 0 ]; then echo "test $t ... ok"; pass=$((pass+1)); else
+    why=$(echo "$out" | grep -E "panicked at|the reader panicked|memory allocation|must |allocate|assertion|bytes" | head -3 | cut -c1-300 | tr '\n' ' ')
+    echo "test $t ... FAILED (exit $rc) $why"; fail=$((fail+1)); fi
+done
+echo "demo result: $pass passed; $fail failed"
